@@ -62,6 +62,23 @@ CHECKS["C10"] = dict(
     note="Assignment of a value within 1e-9*width of an interior edge to either neighbour is accepted (not fixed by the property); exhaustive only over the stated lattice.",
     design="7/C10",
 )
+CHECKS["C11"] = dict(
+    technique="property-based testing (Hypothesis) over an enumerated configuration lattice (family x fixed-parameter subset x fit method) with generated values and data; invariant oracle on the fixed values",
+    text="All 56 non-empty proper fixed-parameter subsets of the 12 families (plus lsq/wlsq for the exponentiated Weibull) with generated fixed values, start values and data from the "
+         "same or another family: fixed value present in parameters and f_<name> from construction, evaluation identical to an instance constructed with the value, fit succeeds (only the "
+         "documented NotImplementedError for unsupported least-squares subsets), fixed value unchanged to 1e-12 after fit and re-fit, free parameters finite/admissible/estimated; "
+         "ConditionalDistribution: fixed parameter constant in g before and after fitting, per-interval estimates keep it, template untouched.",
+    note="Fixed location-like values are generated below the data; 'estimated' is only asserted when the start values give the data a finite likelihood.",
+    design="7/C11",
+)
+CHECKS["C13"] = dict(
+    technique="property-based testing (Hypothesis): differential against an independent numpy.linalg.lstsq weighted regression of the documented linearised quantile relation + metamorphic relations (weight scaling, joint permutation, keyword == array)",
+    text="Generated positive samples (30-5000, four source laws, ties, appended zeros), every weight specification (None, keywords in any case, positive arrays, scaled arrays), delta fixed or free, "
+         "lsq and wlsq, sorted / shuffled input. alpha and beta must equal the reference regression at the delta in force (rtol 1e-8); results invariant under w -> k*w and under joint permutation; "
+         "keyword weights equal their x^k arrays; a free delta is a local minimiser of the harness' x-space weighted error.",
+    note="Local optimality of a free delta is only judged where (0.5/n)^(1/delta) >= 1e-10 (computable plotting-position transform); fmin's own tolerance bounds delta.",
+    design="7/C13",
+)
 NOT_YET = {}
 
 def main():
